@@ -36,7 +36,22 @@ pub fn eval(scene: &Scene) -> Result<(u64, u64, bool), Violation> {
         }
         _ => return Err(Violation::new("harness/unsupported-draw", case, "".to_string())),
     };
-    let cov = cov.map_err(|p| Violation::new("reference/panic", case.clone(), p))?;
+    let mut cov = cov.map_err(|p| Violation::new("reference/panic", case.clone(), p))?;
+    // clip rectangles pushed before the draw (also ones that only bound a layer pushed under
+    // them and are popped again) limit where the draw can show
+    for op in &scene.ops {
+        match op {
+            Op::PushClipRect(x0, y0, x1, y1) => {
+                for i in 0..(w * h) {
+                    if !(i % w >= *x0 && i % w < *x1 && i / w >= *y0 && i / w < *y1) {
+                        cov[i as usize] = 0;
+                    }
+                }
+            }
+            o if o.is_draw() => break,
+            _ => {}
+        }
+    }
     let model = match ImgModel::new(iw, ih, &data, repeat, bilinear, &ctm, &sxf, alpha_byte(alpha)) {
         Some(m) => m,
         None => return Ok((0, 0, false)),
@@ -226,6 +241,52 @@ impl Check for C13 {
                 }
             }
         });
+        // inside layers whose origin is not the surface origin, with and without a clip path in
+        // force, through the SrcOver blitters
+        {
+            let (w, h) = (9, 7);
+            let cover = PathSpec::rect(-3., -3., 20., 20.);
+            let ctxs: Vec<(Vec<Op>, Vec<Op>)> = vec![
+                (vec![Op::PushClipRect(2, 1, w, h), Op::PushLayer(1.0, BlendMode::SrcOver)], vec![Op::PopLayer, Op::PopClip]),
+                (vec![Op::PushClipRect(2, 1, w, h), Op::PushLayer(1.0, BlendMode::SrcOver), Op::PushClip(cover.clone())], vec![Op::PopClip, Op::PopLayer, Op::PopClip]),
+                (vec![Op::PushClipRect(3, 2, w - 1, h), Op::PushLayer(1.0, BlendMode::SrcOver), Op::PopClip, Op::PushClip(cover.clone())], vec![Op::PopClip, Op::PopLayer]),
+                (vec![Op::PushClip(cover.clone())], vec![Op::PopClip]),
+            ];
+            let sxs: Vec<Xf> = vec![IDENT, [1., 0., 0., 1., -2., 1.], [1., 0., 0., 1., 0.5, 0.25], [0.5, 0., 0., 0.5, 0., 0.], [0.8660254, 0.5, -0.5, 0.8660254, 0.3, 0.7]];
+            run.bound("offset layers and clip paths", format!("{} contexts x 2 images x pad/repeat x nearest/bilinear x {} source transforms x 2 alphas, SrcOver over a transparent {}x{} surface", ctxs.len(), sxs.len(), w, h));
+            run.par(ctxs.len() * sxs.len(), |s, l| {
+                let (pre, suf) = &ctxs[s / sxs.len()];
+                let t = sxs[s % sxs.len()];
+                for (ii, &(iw, ih)) in [(3, 2), (2, 3)].iter().enumerate() {
+                    let data = image_of(iw, ih, &DISTINCT16, ii + 2);
+                    for repeat in [false, true] {
+                        for bilinear in [false, true] {
+                            for alpha in [1.0f32, 0.5] {
+                                let src = SrcSpec::Image { w: iw, h: ih, data: data.clone(), repeat, bilinear, xf: t };
+                                let mut ops = pre.clone();
+                                ops.push(Op::Fill(PathSpec::rect(-60., -60., 120., 120.), src, Opts { mode: BlendMode::SrcOver, alpha, aa: true }));
+                                ops.extend(suf.iter().cloned());
+                                let scene = Scene { w, h, dst: Dst::Zero, ops };
+                                l.states += 1;
+                                l.transitions += scene.ops.len() as u64;
+                                l.traces += 1;
+                                l.evals += 1;
+                                match eval(&scene) {
+                                    Ok((hsh, n, interp)) => {
+                                        l.outcome(hsh);
+                                        l.count("pixels_checked", n);
+                                        if interp {
+                                            l.nontrivial += 1;
+                                        }
+                                    }
+                                    Err(v) => run.report(50_000 + s, v),
+                                }
+                            }
+                        }
+                    }
+                }
+            });
+        }
         // an image of more than 65536 texels on a surface of more than 65536 pixels
         run.bound("large image", "300x300 image (texel rows and columns with periods 251 / 241) on a 300x300 surface x pad/repeat x nearest/bilinear x 3 source transforms".to_string());
         run.par(4, |s, l| {
